@@ -173,7 +173,7 @@ def check(ctx):
              (unv[0].line if unv else None))
     ck = m.func(I2C, 'I2CElement._checksum256')
     rs = [norm(s.value) for s in walk_own(ck.node) if isinstance(s, ast.Return)]
-    ctx.inst('R2', ck, 'checksum=sum%256', rs in (['reduce(lambda x, y: x + y, list(%s)) %% 256' % ck.params[1]], ['reduce(lambda x, y: x + y, %s) %% 256' % ck.params[1]], ['sum(%s) %% 256' % ck.params[1]]), 'checksum is the byte sum modulo 256; returns %s' % rs)
+    ctx.inst('R2', ck, 'checksum=sum%256', rs in (['reduce(lambda x, y: x + y, list(%s)) %% 256' % ck.params[1]], ['reduce(lambda x, y: x + y, %s) %% 256' % ck.params[1]], ['sum(%s) %% 256' % ck.params[1]], ['reduce(operator.add, %s) %% 256' % ck.params[1]], ['reduce(operator.add, list(%s)) %% 256' % ck.params[1]]), 'checksum is the byte sum modulo 256; returns %s' % rs)
     # the completion callback of an update is one-shot on every branch, the refused-header branch included
     one_shot_callback_rules(ctx, 'R2', m.func(OW, 'OWElement.new_data'), '_update_finished_cb')
     one_shot_callback_rules(ctx, 'R2', rd, '_update_finished_cb')
